@@ -176,6 +176,7 @@ func cmdCheck(args []string) int {
 	solverTime := 0.0
 	bySolver := map[string]int{}
 	knownPrinted := map[string]bool{}
+	nWitness := 0
 	for _, r := range results {
 		solverTime += r.R.Time
 		if r.O.Cover {
@@ -215,6 +216,18 @@ func cmdCheck(args []string) int {
 			if rep := tryReplay(g, r, replayDir); rep != nil {
 				confirmed = rep.Confirmed
 				detail += "\n--- replay ---\n" + rep.Log
+			}
+		}
+		if !confirmed && nWitness < 6 {
+			// no model (quantified context), or the model did not replay: search a candidate input
+			// with the quantified facts relaxed and try it on the real code
+			nWitness++
+			if rep := replayObligation(g, r, true); rep != nil {
+				if rep.Confirmed {
+					confirmed = true
+					reason += "; failing input found by relaxed witness search and confirmed on the real code"
+				}
+				detail += "\n--- witness search (quantifiers relaxed) ---\n" + rep.Log
 			}
 		}
 		os.MkdirAll(replayDir, 0o755)
